@@ -80,6 +80,15 @@ def extra_cases(tier):
             for prog in ([['set_parameter_names', 0]], [['set_parameter_names', 1], ['set_parameter_names', 0]],
                          [['set_n_ids', n_ids], ['set_parameter_names', 0]]):
                 out.append(dict(kind='pop', pop=pop, n_ids=n_ids, prog=prog, enumerated=True))
+    # a composition with a part that is itself a reduced model around a heterogeneous model: the number of individuals
+    # goes up and back down to ONE (the value a reduced wrapper reports for itself at any time)
+    for pop in (dict(kind='comp', parts=[dict(kind='red', base=dict(kind='hetero', n_dim=1), fixed=[0], values=[0.7]),
+                                         dict(kind='gauss', n_dim=1, centered=True)]),
+                dict(kind='comp', parts=[dict(kind='gauss', n_dim=1, centered=True),
+                                         dict(kind='red', base=dict(kind='hetero', n_dim=2), fixed=[1], values=[0.7])])):
+        for prog in ([['set_n_ids', 2], ['set_n_ids', 0]], [['set_n_ids', 3], ['set_n_ids', 0], ['set_n_ids', 1]],
+                     [['set_n_ids', 0]]):
+            out.append(dict(kind='pop', pop=pop, n_ids=2, prog=prog, enumerated=True))
     # hierarchical likelihoods over a population model that is still configured for ONE individual when it is handed
     # over (heterogeneous part, plain and inside a reduced model with a parameter fixed by name), 2-3 individuals
     for n_ids in (2, 3):
